@@ -1,3 +1,4 @@
+import Desert.Lemmas.AltFormLemmas
 import Desert.Props.C03
 import Desert.Lemmas.FuelMono
 import Desert.Lemmas.TotalDec
@@ -151,6 +152,41 @@ theorem cross_prefix_is_error (env : Env) (henv : EnvWF env) (hdec : envDecOKb e
     obtain ⟨F, hF⟩ : ∃ F, F = max ((b.take k).length + 1) (v.depth + 1) := ⟨_, rfl⟩
     have hmono := dec_fuel_mono env ((b.take k).length + 1) F (by omega) (.named idr) _ _ _ hr
     exact cross_prefix_rejected env henv idw idr dw dr hfw hfr hal hne v b st' F he hu (by omega) k hk a s' hmono
+
+
+
+/-- the unknown-length form (marker, flagged items, terminator): no strict prefix decodes to a value
+either — in particular not a cut at an element boundary, where only the terminator is missing -/
+theorem unknown_form_prefix_rejected (env : Env) (henv : EnvWF env) (t : Ty) (items : Val) (b : Bytes) (st' : EncSt)
+    (fuel : Nat) (he : encSeqUnknown env t items [] = .ok (b, st')) (hu : items.utf8OK)
+    (hd : items.depth < fuel) (hl : items.chainLength < fuel) (k : Nat) (hk : k < b.length) :
+    ∀ a s', runAbs (dec env fuel (.seq t)) (AbsSrc.new (b.take k)) ≠ .ok (a, s') := by
+  intro a s' hok
+  have hext := run_extends_top (dec env fuel (.seq t)) (b.take k) (b.drop k) a s' hok
+  rw [List.take_append_drop] at hext
+  have hrt := rt_seq_unknown env henv t items [] b st' fuel he hu (by simp [StOK]) hd hl (AbsSrc.new b) []
+    (WF_new _) (by simp [view_new]) rfl
+  rw [hrt] at hext
+  have hwf := run_AllWF (dec env fuel (.seq t)) _ a s' (AllWF_new _) hok
+  simp only [Outcome.ok.injEq, Prod.mk.injEq] at hext
+  obtain ⟨_, hs⟩ := hext
+  unfold AbsSrc.ext at hs
+  cases hst : s'.stack with
+  | nil =>
+    simp only [hst] at hs
+    have hpos : s'.cur.pos = b.length := by
+      have := congrArg (fun x => x.cur.pos) hs; simpa [AbsSrc.after, AbsSrc.new] using this.symm
+    have hwin : s'.cur.window ++ b.drop k = b := by
+      have := congrArg (fun x => x.cur.window) hs; simpa [AbsSrc.after, AbsSrc.new] using this.symm
+    have hlen : s'.cur.window.length + (b.length - k) = b.length := by
+      have := congrArg List.length hwin; simpa using this
+    have := hwf.1
+    omega
+  | cons w ws =>
+    simp only [hst] at hs
+    have := congrArg (fun x => x.stack) hs
+    simp [AbsSrc.after, AbsSrc.new] at this
+    cases ws <;> simp [extStack] at this
 
 
 end C08
